@@ -430,7 +430,8 @@ def _value_line_tokenizer(func):
         # type: (str) -> Iterable[Deb822Token]
         first_line = True
         for line in v.splitlines(keepends=True):
-            assert not _RE_WHITESPACE_LINE.match(v)
+            # Only the first line (the rest of the field line) can be blank
+            assert first_line or not _RE_WHITESPACE_LINE.match(line)
             if line.startswith("#"):
                 yield Deb822CommentToken(line)
                 continue
